@@ -12,6 +12,8 @@
 //	 "next_abort":[{fate,int,n,warm, ext0,int0,ext1,int1, last0,last1, issued:[idx...], reissued:[idx...]}],
 //	 "next_commit":[{int,n,warm, before, after, last, issued:[...], found:[...], following, fresh_after}],
 //	 "extend_abort":[{fate,int,to, before, after, found}],
+//	 "extend_commit":[{int,to,warm, before, after, last, restart_next}],
+//	 "extend_fp":[{fp, warm, int, running:[fp...], restarted:[fp...]}],
 //	 "rename":[{kind, committed_mem, committed_disk, aborted_mem, aborted_disk, fate}]}
 package main
 
@@ -297,6 +299,58 @@ func variants() []variant {
 	return vs
 }
 
+// importKey is an account key (m/purpose'/coin'/0' of another seed, neutered) to import.
+func importKey() (*hdkeychain.ExtendedKey, error) {
+	k, err := hdkeychain.NewMaster(bytes.Repeat([]byte{0xa0}, 32), params)
+	if err != nil {
+		return nil, err
+	}
+	for _, c := range []uint32{scope.Purpose, scope.Coin, 0} {
+		if k, err = k.DeriveNonStandard(c + hdkeychain.HardenedKeyStart); err != nil { // nolint:staticcheck
+			return nil, err
+		}
+	}
+	return k.Neuter()
+}
+
+// childAddr is the scope's (BIP0084: witness pubkey hash) address of branch/index of an account key.
+func childAddr(xk *hdkeychain.ExtendedKey, branch, idx uint32) (btcutil.Address, error) {
+	bk, err := xk.DeriveNonStandard(branch) // nolint:staticcheck
+	if err != nil {
+		return nil, err
+	}
+	ck, err := bk.DeriveNonStandard(idx) // nolint:staticcheck
+	if err != nil {
+		return nil, err
+	}
+	pub, err := ck.ECPubKey()
+	if err != nil {
+		return nil, err
+	}
+	return btcutil.NewAddressWitnessPubKeyHash(btcutil.Hash160(pub.SerializeCompressed()), params)
+}
+
+// fingerprints: DerivationInfo().MasterKeyFingerprint of every address (-1: not known / no derivation info).
+func (in *inst) fingerprints(addrs []btcutil.Address) ([]int64, error) {
+	out := make([]int64, len(addrs))
+	err := in.view(func(ns walletdb.ReadBucket) error {
+		for i, a := range addrs {
+			out[i] = -1
+			ma, err := in.sm.Address(ns, a)
+			if err != nil {
+				continue
+			}
+			if pk, ok := ma.(waddrmgr.ManagedPubKeyAddress); ok {
+				if _, dp, ok := pk.DerivationInfo(); ok {
+					out[i] = int64(dp.MasterKeyFingerprint)
+				}
+			}
+		}
+		return nil
+	})
+	return out, err
+}
+
 func main() {
 	out := map[string]interface{}{}
 	if err := run(out); err != nil {
@@ -508,22 +562,133 @@ func run(out map[string]interface{}) error {
 	}
 	out["extend_abort"] = eas
 
-	// ---- rename: default and imported (watch-only) accounts, cached before
-	var rns []map[string]interface{}
-	other, err := hdkeychain.NewMaster(bytes.Repeat([]byte{0xa0}, 32), params)
-	if err != nil {
-		return err
-	}
-	k := other
-	for _, c := range []uint32{scope.Purpose, scope.Coin, 0} {
-		if k, err = k.DeriveNonStandard(c + hdkeychain.HardenedKeyStart); err != nil { // nolint:staticcheck
+	// ---- committed extend: the index, the last address, a restarted manager
+	var ecs []map[string]interface{}
+	for _, v := range variants() {
+		if v.Fate != "abort" { // one pass over (branch, n, warm)
+			continue
+		}
+		r, done, err := e.fresh()
+		if err != nil {
 			return err
 		}
+		if v.Warm {
+			if err := r.warm(); err != nil {
+				done()
+				return err
+			}
+		}
+		c0, err := r.props(0)
+		if err != nil {
+			done()
+			return err
+		}
+		to := cnt(c0, v.Int) + v.N
+		err = r.tx("commit", func(ns walletdb.ReadWriteBucket) error {
+			if v.Int {
+				return r.sm.ExtendInternalAddresses(ns, 0, to)
+			}
+			return r.sm.ExtendExternalAddresses(ns, 0, to)
+		})
+		if err != nil {
+			done()
+			return err
+		}
+		c1, err := r.props(0)
+		if err != nil {
+			done()
+			return err
+		}
+		l1, _ := r.last(0, v.Int)
+		rs, rdone, err := e.restarted(r)
+		if err != nil {
+			done()
+			return err
+		}
+		cf, err := rs.props(0)
+		rdone()
+		done()
+		if err != nil {
+			return err
+		}
+		ecs = append(ecs, map[string]interface{}{"int": v.Int, "to": to, "warm": v.Warm, "before": cnt(c0, v.Int),
+			"after": cnt(c1, v.Int), "last": l1, "restart_next": cnt(cf, v.Int)})
 	}
-	xpub, err := k.Neuter()
+	out["extend_commit"] = ecs
+
+	// ---- the derivation path of extended addresses of an imported account:
+	// master-key fingerprint as the running manager and as a restarted one report it
+	xk, err := importKey()
 	if err != nil {
 		return err
 	}
+	var efs []map[string]interface{}
+	for _, fp := range []uint32{7, 0x11223344} {
+		for _, internal := range []bool{false, true} {
+			for _, warmed := range []bool{false, true} {
+				r, done, err := e.fresh()
+				if err != nil {
+					return err
+				}
+				var acct uint32
+				err = r.tx("commit", func(ns walletdb.ReadWriteBucket) error {
+					var err error
+					acct, err = r.sm.NewAccountWatchingOnly(ns, "xpubacct", xk, fp, nil)
+					return err
+				})
+				if err == nil && warmed {
+					_, err = r.props(acct)
+				}
+				if err == nil {
+					err = r.tx("commit", func(ns walletdb.ReadWriteBucket) error {
+						if internal {
+							return r.sm.ExtendInternalAddresses(ns, acct, 2)
+						}
+						return r.sm.ExtendExternalAddresses(ns, acct, 2)
+					})
+				}
+				if err != nil {
+					done()
+					return err
+				}
+				var addrs []btcutil.Address
+				branch := uint32(0)
+				if internal {
+					branch = 1
+				}
+				for i := uint32(0); i <= 2; i++ {
+					a, err := childAddr(xk, branch, i)
+					if err != nil {
+						done()
+						return err
+					}
+					addrs = append(addrs, a)
+				}
+				run, err := r.fingerprints(addrs)
+				if err != nil {
+					done()
+					return err
+				}
+				rs, rdone, err := e.restarted(r)
+				if err != nil {
+					done()
+					return err
+				}
+				res, err := rs.fingerprints(addrs)
+				rdone()
+				done()
+				if err != nil {
+					return err
+				}
+				efs = append(efs, map[string]interface{}{"fp": fp, "int": internal, "warm": warmed, "running": run, "restarted": res})
+			}
+		}
+	}
+	out["extend_fp"] = efs
+
+	// ---- rename: default and imported (watch-only) accounts, cached before
+	var rns []map[string]interface{}
+	xpub := xk
 	for _, kind := range []string{"default0", "default", "watchonly", "watchonly_schema"} {
 		for _, fate := range []string{"abort", "dryrun", "failcommit"} {
 			r, done, err := e.fresh()
